@@ -5,41 +5,21 @@
    the reduce / elementwise index plan of Spec/LoopSem.v with the user function as elementary
    operation; the correspondence check evaluates that plan and compares. *)
 From Coq Require Import List Bool Arith Lia Sorted.
-From EinxV Require Import Gen.GenAdapter.
+From EinxV Require Import Gen.GenAdapter Proofs.AdapterProofs.
 Import ListNotations.
-
-Lemma from_spec idx marks k :
-  In k (gen_expr_to_axis_from idx marks) <-> (idx <= k /\ nth (k - idx) marks false = true).
-Proof.
-  revert idx k. induction marks as [|m r IH]; intros idx k; cbn [gen_expr_to_axis_from].
-  - split; [intros []|intros [_ H]]. destruct (k - idx); discriminate.
-  - destruct m.
-    + cbn [In]. rewrite IH. split.
-      * intros [<-|[Hle Hn]]; [split; [lia|now rewrite Nat.sub_diag]|].
-        split; [lia|]. replace (k - idx) with (S (k - S idx)) by lia. exact Hn.
-      * intros [Hle Hn]. destruct (Nat.eq_dec idx k) as [E|E]; [now left|right]. split; [lia|].
-        replace (k - idx) with (S (k - S idx)) in Hn by lia. exact Hn.
-    + rewrite IH. split.
-      * intros [Hle Hn]. split; [lia|]. replace (k - idx) with (S (k - S idx)) by lia. exact Hn.
-      * intros [Hle Hn]. destruct (Nat.eq_dec idx k) as [E|E].
-        -- subst. rewrite Nat.sub_diag in Hn. discriminate.
-        -- split; [lia|]. replace (k - idx) with (S (k - S idx)) in Hn by lia. exact Hn.
-Qed.
 
 (* axis= lists exactly the positions of the bracketed dimensions ... *)
 Theorem C15_axis_argument_is_the_bracket_positions : forall marks k,
   In k (gen_expr_to_axis marks) <-> nth k marks false = true.
-Proof.
-  intros marks k. unfold gen_expr_to_axis. rewrite from_spec, Nat.sub_0_r. split; [tauto|]. intros H. split; [lia|exact H].
-Qed.
+Proof. exact axis_is_bracket_positions. Qed.
 Print Assumptions C15_axis_argument_is_the_bracket_positions.
 
 (* ... in ascending order, each once *)
-Lemma from_sorted idx marks : forall k, In k (gen_expr_to_axis_from idx marks) -> idx <= k.
-Proof. intros k H. apply from_spec in H. tauto. Qed.
 Theorem C15_axis_argument_is_strictly_ascending : forall marks,
   StronglySorted lt (gen_expr_to_axis marks).
-Proof.
-  intros marks. unfold gen_expr_to_axis. generalize 0. induction marks as [|m r IH]; intros idx; cbn [gen_expr_to_axis_from]; [constructor|].
-  destruct m; [|apply IH]. constructor; [apply IH|]. apply Forall_forall. intros k Hk. apply from_sorted in Hk. lia.
-Qed.
+Proof. exact axis_strictly_ascending. Qed.
+Print Assumptions C15_axis_argument_is_strictly_ascending.
+
+(* non-vacuity: brackets at positions 1 and 3 of five dimensions *)
+Example C15_example : gen_expr_to_axis [false; true; false; true; false] = [1; 3].
+Proof. reflexivity. Qed.
